@@ -466,6 +466,28 @@ static size_t safec_ftoa_long(out_fct_type out, const char *funcname,
 #endif // PRINTF_SUPPORT_EXPONENTIAL
 
 // internal ftoa for fixed decimal floating point
+// "nan" / "inf" with the sign and the flags '+' and ' ' as for a number, but
+// never zero-padded; the sign bit of a nan is not shown
+static size_t safec_out_nonfinite(out_fct_type out, char *buffer, size_t idx,
+                                  size_t maxlen, bool isnan_, bool negative,
+                                  unsigned int width, unsigned int flags) {
+    char sbuf[4];
+    size_t slen = 0;
+    const char *txt = isnan_ ? ((flags & FLAGS_UPPERCASE) ? "NAN" : "nan")
+                             : ((flags & FLAGS_UPPERCASE) ? "FNI" : "fni");
+    sbuf[slen++] = txt[0];
+    sbuf[slen++] = txt[1];
+    sbuf[slen++] = txt[2];
+    if (negative && !isnan_)
+        sbuf[slen++] = '-';
+    else if (flags & FLAGS_PLUS)
+        sbuf[slen++] = '+';
+    else if (flags & FLAGS_SPACE)
+        sbuf[slen++] = ' ';
+    return safec_out_rev(out, buffer, idx, maxlen, sbuf, slen, width,
+                         flags & ~FLAGS_ZEROPAD);
+}
+
 static size_t safec_ftoa(out_fct_type out, const char *funcname, char *buffer,
                          size_t idx, size_t maxlen, double value,
                          unsigned int prec, unsigned int width,
@@ -484,25 +506,10 @@ static size_t safec_ftoa(out_fct_type out, const char *funcname, char *buffer,
                                    100000000, 1000000000};
     const unsigned maxprec = 9U;
 
-    // test for special values: "nan" / "inf" with the sign and the flags
-    // '+' and ' ' as for a number, but never zero-padded
+    // test for special values
     if ((value != value) || isinf(value)) {
-        char sbuf[4];
-        size_t slen = 0;
-        const char *txt = (value != value)
-                              ? ((flags & FLAGS_UPPERCASE) ? "NAN" : "nan")
-                              : ((flags & FLAGS_UPPERCASE) ? "FNI" : "fni");
-        sbuf[slen++] = txt[0];
-        sbuf[slen++] = txt[1];
-        sbuf[slen++] = txt[2];
-        if (value < 0) // a negative infinity; the sign bit of a nan is not shown
-            sbuf[slen++] = '-';
-        else if (flags & FLAGS_PLUS)
-            sbuf[slen++] = '+';
-        else if (flags & FLAGS_SPACE)
-            sbuf[slen++] = ' ';
-        return safec_out_rev(out, buffer, idx, maxlen, sbuf, slen, width,
-                             flags & ~FLAGS_ZEROPAD);
+        return safec_out_nonfinite(out, buffer, idx, maxlen, value != value,
+                                   value < 0, width, flags);
     }
     // test for very large values
     // standard printf behavior is to print EVERY whole number digit -- which
@@ -705,34 +712,60 @@ static size_t safec_ftoa_long(out_fct_type out, const char *funcname,
                               unsigned int width, unsigned int flags,
                               const char *format) {
     char buf[64];
+    char fmt[48];
     char *p = (char *)buf;
+    char *heap = NULL;
+    size_t fl = 0;
+    int n;
     int rc = 0;
 
-    if (value != value)
-        return safec_out_rev(out, buffer, idx, maxlen,
-                             (flags & FLAGS_UPPERCASE) ? "NAN" : "nan", 3,
-                             width, flags);
-    if (_ISINFL(value)) {
-        if (value < 0)
-            return safec_out_rev(out, buffer, idx, maxlen,
-                                 (flags & FLAGS_UPPERCASE) ? "FNI-" : "fni-", 4,
-                                 width, flags);
-        else
-            return safec_out_rev(out, buffer, idx, maxlen,
-                                 (flags & FLAGS_PLUS)
-                                     ? (flags & FLAGS_UPPERCASE) ? "FNI+"
-                                                                 : "fni+"
-                                 : (flags & FLAGS_UPPERCASE) ? "FNI"
-                                                             : "fni",
-                                 (flags & FLAGS_PLUS) ? 4 : 3, width, flags);
+    if ((value != value) || _ISINFL(value)) {
+        return safec_out_nonfinite(out, buffer, idx, maxlen, value != value,
+                                   value < 0, width, flags);
     }
-    snprintf(buf, 64, format, value);
-    buf[63] = '\0';
+    // the C library does the conversion. It gets a directive rebuilt from
+    // what was parsed (a '*' width or precision has been fetched already and
+    // must not be fetched again) and the conversion character, which is the
+    // last character of the directive text
+    fmt[fl++] = '%';
+    if (flags & FLAGS_LEFT)
+        fmt[fl++] = '-';
+    if (flags & FLAGS_PLUS)
+        fmt[fl++] = '+';
+    if (flags & FLAGS_SPACE)
+        fmt[fl++] = ' ';
+    if (flags & FLAGS_HASH)
+        fmt[fl++] = '#';
+    if (flags & FLAGS_ZEROPAD)
+        fmt[fl++] = '0';
+    if (width)
+        fl += (size_t)snprintf(fmt + fl, 12, "%u", width);
+    if (flags & FLAGS_PRECISION)
+        fl += (size_t)snprintf(fmt + fl, 13, ".%u", prec);
+    fmt[fl++] = 'L';
+    fmt[fl++] = format[strlen(format) - 1];
+    fmt[fl] = '\0';
+
+    n = snprintf(buf, sizeof buf, fmt, value);
+    if (n >= (int)sizeof buf) { // %Lf of a large value has thousands of digits
+        heap = (char *)malloc((size_t)n + 1);
+        if (!heap) {
+            char msg[80];
+            snprintf(msg, sizeof msg, "%s: malloc failed", funcname);
+            invoke_safe_str_constraint_handler(msg, buffer, ESNOSPC);
+            return -(ESNOSPC);
+        }
+        snprintf(heap, (size_t)n + 1, fmt, value);
+        p = heap;
+    }
     while (*p != 0) {
         rc = out(*(p++), buffer, idx++, maxlen);
-        if (unlikely(rc < 0))
+        if (unlikely(rc < 0)) {
+            free(heap);
             return rc;
+        }
     }
+    free(heap);
     return idx;
 }
 
